@@ -66,6 +66,27 @@ def oracle(case, outs, probes):
                 else:
                     if o["res"] != "err:InitError" or T.state_key(o) != T.state_key(prev):
                         bad.append((j, "foreign parentless command %d not refused: %s" % (x, o["res"])))
+        if op[0] == "newgraph":
+            pubs = [c[0] for c in op[2]]
+            main, _, ex = o["res"].partition(";")
+            exd = {int(x.split(":")[0]): x.split(":")[1] == "1" for x in ex.split("+") if x}
+            if main.startswith("ok:"):
+                if not pubs or main != "ok:%d" % pubs[0]:
+                    bad.append((j, "new_graph returned %s, the init command is %s" % (main, pubs[:1])))
+                if pubs and not exd.get(pubs[0]):
+                    bad.append((j, "no graph under the id of the init command %d after new_graph" % pubs[0]))
+                for p in pubs[1:]:
+                    if exd.get(p) and p != gid:
+                        bad.append((j, "a graph exists under the id of the non-init command %d" % p))
+                if pubs and pubs[0] == gid and missing_before:
+                    if o["heads"] != [pubs[-1]] or o["graph"] is None or [i for i, ps in o["graph"].items() if not ps] != [gid]:
+                        bad.append((j, "graph created by new_graph: heads %s, expected [%d], root must be %d" % (o["heads"], pubs[-1], gid)))
+            else:
+                for p in pubs:
+                    if exd.get(p) and (p != gid or missing_before):
+                        bad.append((j, "failed new_graph (%s) left a graph under id %d" % (main, p)))
+                if prev is not None and T.state_key(o) != T.state_key(prev):
+                    bad.append((j, "failed new_graph changed the state of the existing graph"))
         if o["graph"] is not None and [i for i, ps in o["graph"].items() if not ps] != [gid]:
             bad.append((j, "committed graph has a root other than the init command"))
         prev = o
@@ -108,6 +129,26 @@ def run(ctx):
         d.add(T.Cmd(g + 100, 1, (g,), 0, (("A", 1, 2),)))
         cases.append(("badinit%d" % i, r.choice(["mem", "libc"]), g, d,
                       [("open", 0), ("add", 0, [g, g + 100]), ("add", 0, [g + 100]), ("commit", 0), ("open", 1), ("add", 1, [g]), ("commit", 1)]))
+    # graphs created by ClientState::new_graph whose init action publishes 1-3 commands
+    for i in range(40 if ctx.thorough else 9):
+        k = 1 + i % 3
+        d = T.Dag()
+        g = 2000 + 10 * i
+        pubs = []
+        for q in range(k):
+            prog = tuple(o for o in T.rand_prog(r, 0) if o[0] != "Q")
+            d.add(T.Cmd(g + q, "i" if q == 0 else r.choice([0, 1]), () if q == 0 else (g + q - 1,), 1 if q == 0 else 0, prog))
+            pubs.append((g + q, "i" if q == 0 else d.cmds[g + q].prio, prog))
+        base = len(d.order)
+        for q in range(r.range(2, 8)):
+            d.add(T.Cmd(g + 5 + q, r.choice([0, 1, 2]), (r.choice(d.order),), 0, T.rand_prog(r, 5)))
+        rest = d.order[base:]
+        ops = [("open", 0), ("newgraph", None, pubs)]
+        if r.below(3) == 0:
+            ops.insert(1, ("newgraph", r.below(k + 1), pubs))
+        ops += [("add", 0, rest[:len(rest) // 2]), ("open", 1), ("add", 1, [pubs[-1][0]] + rest[len(rest) // 2:]), ("commit", 0),
+                ("add", 1, [g]), ("commit", 1), ("newgraph", None, pubs[:1]), ("open", 2), ("add", 2, rest), ("commit", 2)]
+        cases.append(("ng%d" % i, r.choice(["mem", "libc"]), g, d, ops))
     cases = T.replay_cases(ctx) or cases
     res, mm = T.run_cases(ctx, cases, "c10")
     if res is None:
@@ -117,6 +158,14 @@ def run(ctx):
         for (j, why) in oracle(c, outs, None):
             viol.append((ci, j, why))
     st = T.basic_stats(cases, res)
+    ng = {"new_graph_ok_1": 0, "new_graph_ok_2": 0, "new_graph_ok_3": 0, "new_graph_failed": 0}
+    for c, outs in zip(cases, res):
+        for op, o in zip(c[4], outs):
+            if op[0] == "newgraph":
+                if o["res"].startswith("ok:") and 1 <= len(op[2]) <= 3:
+                    ng["new_graph_ok_%d" % len(op[2])] += 1
+                elif not o["res"].startswith("ok:"):
+                    ng["new_graph_failed"] += 1
     shapes = {"empty": 0, "parented": 0, "foreign_id": 0, "no_policy": 0, "rejected_init": 0, "created": 0,
               "own_init_again": 0, "foreign_parentless_later": 0}
     for c, outs in zip(cases, res):
@@ -148,7 +197,7 @@ def run(ctx):
         "distinct_nontrivial": sum(1 for c, outs in zip(cases, res)
                                    if any(o["res"] == "err:InitError" for o in outs) and any(o["heads"] for o in outs)),
         "rule": "non-trivial = a history that both creates the graph and has at least one refused init-like command; the eight first-command / init-like shapes are counted in distribution.shapes",
-        "distribution": dict(st, shapes=shapes),
+        "distribution": dict(st, shapes=shapes, new_graph=ng),
         "samples": [{"case": T.case_text(*cases[i])[:1200], "results": [o["res"] for o in res[i]][:12]} for i in (12, len(cases) - 1)],
     })
     ctx.assumptions += ["ids identify commands (rclash = false)"]
@@ -157,4 +206,4 @@ def run(ctx):
                       dict(T.replay_obj(cases[ci], res[ci], why, j), contradicts="init_binding (coq/props/C10.v)"))
     T.report_mismatches(ctx, cases, res, mm)
     ctx.oblige("oracle:init-binding-on-impl-output", not viol, str(viol[:3]))
-    ctx.oblige("coverage:all-shapes-hit", all(v > 0 for v in shapes.values()), str(shapes))
+    ctx.oblige("coverage:all-shapes-hit", all(v > 0 for v in shapes.values()) and all(v > 0 for v in ng.values()), str((shapes, ng)))
